@@ -16,7 +16,12 @@ META_PART = "statement layer: Coq model of declaration/assignment/control-flow t
 FEATURE_SETS = [(), ("float",), ("funcs",), ("tuple",), ("float", "funcs", "tuple"), ("branch_first",),
                 # `continue` (repaired defect F-C01-continue-dropped): inside the Coq statement fragment (PContinue / NContinue /
                 # NReturn): these programs go through the IR and execution correspondences and the trace oracle
-                ("continue",), ("continue", "float", "funcs", "tuple")]
+                ("continue",), ("continue", "float", "funcs", "tuple"),
+                # // and % on signed operands and the augmented forms //= and %= (repaired defects F-C01-floordiv, F-C01-mod-sign:
+                # the region their guard used to exclude); expressions are opaque in the Coq statement model (shared Python
+                # semantics on both sides), so these programs are judged by the firmware-vs-CPython trace oracle and by the
+                # model-C-trace = firmware-trace correspondence
+                ("div",), ("div", "float", "funcs", "tuple")]
 
 WITNESSES = {
     "F-C01-continue-dropped": {
@@ -431,6 +436,11 @@ def exec_correspondence(ctx, exe, items):
         src, p, an, pre, main, r, l, pr = it
         if pr is None or pr["status"] not in ("equal", "DIFF", "py-undefined", "outside-guard:model-predicted-deviation"):
             st["skipped:" + (pr["status"] if pr else "none")] += 1
+            continue
+        if pr["status"] == "py-undefined" and leaves_int32(src, p["input"], l):
+            # CPython stopped on an int far outside the 32-bit range (e.g. repeated squaring over several passes: "Exceeds the
+            # limit for integer string conversion"): outside the guard, and the exact-Z model would compute the same giants
+            st["skipped:py-undefined-beyond-int32"] += 1
             continue
         ee = exec_exprs(an.exprs, const_inputs(p["input"]))
         if ee is None:
